@@ -1139,6 +1139,7 @@ fn compare_misc(pre: &Obs, post: &Obs, eff: &Effect, a: &Action, names: &Names, 
                 ));
                 if lwant.as_ref().map_or(true, |w| w.0 != x.0) {
                     f.push(Finding::new("C13.wrong_denom_charged", "buy", format!("listing side charged in {} while {} is in force", x.0, pre.fee_denom())));
+                    f.push(Finding::new("C16.fee_denom", "purchase", format!("the fee query announced {} but the purchase was charged in {}", pre.fee_denom(), x.0)));
                 }
             }
         }
@@ -1157,6 +1158,7 @@ fn compare_misc(pre: &Obs, post: &Obs, eff: &Effect, a: &Action, names: &Names, 
                 ));
                 if !allowed.contains_key(&x.0) {
                     f.push(Finding::new("C13.wrong_denom_charged", "buy", format!("bucket side charged in {} while {} is in force", x.0, pre.fee_denom())));
+                    f.push(Finding::new("C16.fee_denom", "purchase", format!("the fee query announced {} but the purchase was charged in {}", pre.fee_denom(), x.0)));
                 }
             }
         }
